@@ -5,7 +5,7 @@ from .. import hx
 ID = "C02"
 LEVEL = "model_checking"
 BOUNDS = {
-    "quick": "two trains with 0..2 spikes each (all 9 size pairs), RI in {False, True}, MRTS omitted and symbolic >= 0, "
+    "quick": "two trains with 0..2 spikes each (all 9 size pairs; n1+n2 <= 3 when MRTS is symbolic), RI in {False, True}, MRTS omitted and symbolic >= 0, "
              "backends py and pyx; profile compared at the left and right limit of every piece; scalar distance; "
              "evaluation f(t) at a symbolic time for n1+n2 <= 2",
     "thorough": "0..3 spikes each with n1+n2 <= 5 (3+3 for plain/MRTS omitted/py), same variants",
@@ -25,6 +25,8 @@ def configs(tier):
                 for n1 in range(n + 1):
                     for n2 in range(n + 1):
                         if tier != "quick" and n1 + n2 > 5 and not (be == "py" and ri == 0 and mk == "omit"):
+                            continue
+                        if tier == "quick" and mk == "sym" and n1 + n2 > 3:
                             continue
                         yield dict(name="%s-ri%d-m%s-%d+%d" % (be, ri, mk, n1, n2), what="profile", backend=be,
                                    ri=ri, m=mk, n1=n1, n2=n2, fork=True, cost=8 ** (n1 + n2) * (2 if mk == "sym" else 1),
